@@ -39,7 +39,15 @@ type ID = proto.ID
 
 const prngLabel = "c10/session"
 
-var netOpts = netsim.Options{Idle: 3 * time.Second, Hard: 120 * time.Second}
+// Honest runs never stall, so a generous idle bound costs nothing and keeps a slow (overloaded)
+// machine from cancelling a party that is merely late. Faulty runs stall by construction whenever
+// all honest parties abort (the deviator waits forever): they use the short bound first and are
+// repeated with the long one only when the short run left the verdict open (faults_test.go).
+var (
+	netOptsHonest = netsim.Options{Idle: 60 * time.Second, Hard: 120 * time.Second}
+	netOptsFault  = netsim.Options{Idle: 3 * time.Second, Hard: 120 * time.Second}
+	netOptsRetry  = netsim.Options{Idle: 30 * time.Second, Hard: 120 * time.Second}
+)
 
 // ---- generators ----------------------------------------------------------------------------
 
@@ -208,7 +216,7 @@ func runRounds(t *rapid.T, ids []ID, prng func(ID) io.Reader) map[ID]*session.Co
 }
 
 // runNet executes the runner API over a fresh switch.
-func runNet(t *rapid.T, ids []ID, prng func(ID) io.Reader, icpt netsim.Interceptor) (map[ID]*netsim.Result[*session.Context], []*netsim.Msg) {
+func runNet(t *rapid.T, ids []ID, prng func(ID) io.Reader, icpt netsim.Interceptor, netOpts netsim.Options) (map[ID]*netsim.Result[*session.Context], []*netsim.Msg) {
 	set := proto.SetOf(ids...)
 	runners := map[ID]network.Runner[*session.Context]{}
 	for _, id := range ids {
@@ -236,7 +244,7 @@ func runNet(t *rapid.T, ids []ID, prng func(ID) io.Reader, icpt netsim.Intercept
 
 // runNetHonest runs the runner API without interference: everybody must complete.
 func runNetHonest(t *rapid.T, ids []ID, prng func(ID) io.Reader) (map[ID]*session.Context, []*netsim.Msg) {
-	res, log := runNet(t, ids, prng, nil)
+	res, log := runNet(t, ids, prng, nil, netOptsHonest)
 	ctxs := map[ID]*session.Context{}
 	for _, id := range ids {
 		r := res[id]
